@@ -299,3 +299,17 @@ RULE_ADDENDA = {
 }
 for _k, _v in RULE_ADDENDA.items():
     PROPS[_k]["rule"] += "; added after the third round of seeded changes: " + _v
+
+RULE_ADDENDA_4 = {
+    "C01": "the quick tier also builds a 76000-document batch with locations",
+    "C04": "a deterministic stage (image-lengths) places the image length of one batch on B + {1,26,51,52,0,-1} bytes for B in {4 KiB, 64 KiB, 1 MiB}, steered by the size the build reports, and requires WriteTo to emit exactly data + 52 bytes and Persist to write the same bytes",
+    "C06": "the fixed plans include a re-encoding merge of two 140-field inputs with locations",
+    "C08": "empty end keys are generated; a deterministic stage (dictionary-big) enumerates a term present in every one of 65544 documents, built and re-opened",
+    "C12": "every pair of equal-length terms is looked up through one key buffer overwritten in place",
+    "C15": "for outputs with >= 1000 surviving vectors the survivors are also built directly and both index blobs must probe the same number of clusters",
+    "C16": "cache-stress starts with 25 (thorough 150) cold-start rounds: unfiltered and filtered first searches of every field released by a barrier on a freshly opened copy",
+    "C18": "outputs <= 32 KiB are also merged to a FIFO destination (sync fails) with the channel closed at reports {W, W-1, W-2, W/2, 1, never}",
+    "C20": "operation K merges the held segment with a second one, cancelled at every progress report, reading the held segment after each; in-memory: after closing a 3000-document in-memory segment two small ones are built and read (A, B, A)",
+}
+for _k, _v in RULE_ADDENDA_4.items():
+    PROPS[_k]["rule"] += "; added after the fourth round: " + _v
